@@ -212,10 +212,10 @@ func (g *c01Gen) route(d int, expr string, v c01Val) (string, []c01Seg) {
 	}
 }
 
-const c01NSources = 17
+const c01NSources = 19
 
 var c01SourceNames = []string{"ctx-var", "dq-literal", "bq-literal", "struct-field", "ptr-struct-field", "nested-struct-field", "map-element", "map-iface-element",
-	"strings-element", "ifaces-element", "helper-string", "helper-iface", "raw()", "html-var", "htmler-var", "helper-html", "reflect-value-of-string"}
+	"strings-element", "ifaces-element", "helper-string", "helper-iface", "raw()", "html-var", "htmler-var", "helper-html", "reflect-value-of-string", "stringer-var", "named-string-with-String-method"}
 
 // source sets up the context for payload p and returns the initial expression.
 func c01Source(k int, p string, ctx *plush.Context) (expr string, v c01Val, ok bool) {
@@ -272,12 +272,23 @@ func c01Source(k int, p string, ctx *plush.Context) (expr string, v c01Val, ok b
 	case 15:
 		ctx.Set("hh", func() template.HTML { return template.HTML(p) })
 		return "hh()", c01Val{s: p, trusted: true}, true
-	default:
+	case 16:
 		// the sink unwraps anything with an Interface() method
 		ctx.Set("rvs", reflect.ValueOf(p))
 		return "rvs", c01Val{s: p}, true
+	case 17:
+		// what String() returns is a Go string like any other: not trusted HTML
+		ctx.Set("sgr", stringerFix{p})
+		return "sgr", c01Val{s: p}, true
+	default:
+		ctx.Set("nsg", c01NamedStringer(p))
+		return "nsg", c01Val{s: p}, true
 	}
 }
+
+type c01NamedStringer string
+
+func (n c01NamedStringer) String() string { return string(n) }
 
 var c01Bodies = []string{"<", ">", "&", "'", "\"", "<>&'\"", "&amp;", "&lt;b&gt;", "&#39;", "é✓<é>", "\xff<\xfe", "a\x00<b", "<script>alert(1)</script>", "%><%= 1 %><%", "<<<<<<<<&&&&&&&&>>>>>>>>", "plain"}
 
@@ -446,7 +457,7 @@ func c01Run(b *core.B) {
 		if !ok {
 			return
 		}
-		if srcK == 16 {
+		if srcK >= 16 {
 			// a reflect.Value is only a string for the output sink, not for
 			// typed helpers or operators: direct emission only
 			if depth != 0 || len(force) != 1 || force[0] == 6 || force[0] == 8 {
